@@ -12,6 +12,48 @@
 #include <map>
 #include <set>
 #include <memory>
+#include <string>
+#include <vector>
+#include <deque>
+#include <list>
+#include <sstream>
+#include <iostream>
+#include <fstream>
+#include <functional>
+#include <algorithm>
+#include <limits>
+#include <utility>
+#include <iterator>
+#include <cmath>
+#include <cstdio>
+#include <cstdlib>
+#include <cstring>
+#include <cassert>
+#include <stdexcept>
+#include <numeric>
+#include <queue>
+#include <stack>
+#include <unordered_map>
+#include <unordered_set>
+#include <tuple>
+#include <array>
+#include <bitset>
+#include <iomanip>
+#include <typeinfo>
+#include <exception>
+#include <climits>
+#include <cfloat>
+#include <ctime>
+#include <cstdarg>
+#include <cstddef>
+#include <cstdint>
+#include <complex>
+#include <valarray>
+// Harness only: the exact tie of Tree::symmetricLayout (Model/TreeLayout.lean) also compares the root
+// tree's per-rank bounds m_boundsByRank and m_lb/m_ub, which have no accessor. All standard headers are
+// included above, so the redefinition only touches the adaptagrams headers (no layout change: access
+// specifiers do not reorder members with g++).
+#define private public
 #include "libdialect/commontypes.h"
 #include "libdialect/graphs.h"
 #include "libdialect/peeling.h"
@@ -20,6 +62,7 @@
 #include "libdialect/routing.h"
 #include "libdialect/opts.h"
 #include "libdialect/ortho.h"
+#undef private
 
 using namespace dialect;
 typedef std::pair<int, int> IP;
@@ -364,6 +407,37 @@ static void genLayoutTree(vh::Rng &r, int shape, int n, std::vector<int> &parent
         int legs = (int) r.range(3, 7);
         for (int l = 0; l < legs && (int) parent.size() < n; ++l) { int e = path(0, (int) r.range(1, 5)); if (r.coin(1, 3)) for (int j = 0, f = (int) r.range(2, 3); j < f; ++j) add(e); }
         break; }
+    case 6: { // deep path with a few side leaves / short side paths
+        int last = 0;
+        while ((int) parent.size() < n) {
+            last = add(last);
+            if (r.coin(1, 5) && (int) parent.size() < n) { int s = add(last); if (r.coin(1, 3) && (int) parent.size() < n) add(s); }
+        }
+        break; }
+    case 7: { // star, optionally with a second level under some of the leaves
+        std::vector<int> lv;
+        int k = std::max(1, (int) r.range(n / 2, n - 1));
+        for (int i = 0; i < k && (int) parent.size() < n; ++i) lv.push_back(add(0));
+        while ((int) parent.size() < n && !lv.empty()) add(lv[r.range(0, (long) lv.size() - 1)]);
+        break; }
+    case 8: { // nested lopsided subtrees of pairwise different shape, so that asymmetric subtrees are
+              // placed on the negative side (Tree::flip) at two levels
+        int kids = (int) r.range(2, 6);
+        for (int c = 0; c < kids && (int) parent.size() < n; ++c) {
+            int v = add(0);
+            int sub = (int) r.range(1, 4);
+            for (int j = 0; j < sub && (int) parent.size() < n; ++j) {
+                int u = add(v);
+                // child j: a path of length j hanging on one side and a fan of c+1 leaves on the other
+                int e = u; for (int q = 0; q < j && (int) parent.size() < n; ++q) e = add(e);
+                for (int q = 0; q <= c && (int) parent.size() < n; ++q) add(u);
+                if (r.coin(1, 3) && (int) parent.size() < n) add(e);
+            }
+        }
+        break; }
+    case 9:   // tiny trees: 1..4 nodes (single leaf = early return, one child, two children …)
+        for (int i = 1; i < n; ++i) add((int) r.range(0, i - 1));
+        break;
     default: { // two-level random: random subtrees of random recursive shape hung under a few hubs
         int hubs = (int) r.range(2, 5); std::vector<int> hub;
         for (int h = 0; h < hubs; ++h) hub.push_back(add(0));
@@ -373,14 +447,31 @@ static void genLayoutTree(vh::Rng &r, int shape, int n, std::vector<int> &parent
     }
 }
 
-static void runLayout(vh::Rng &r, const std::vector<int> &parent, int dirIdx, bool uniform) {
+// sizeMode 0: all 30x30; 1: even integers 10..40; 2: anisotropic (one dimension up to 25x the other);
+//          3: multiples of 1/4 in (0, 50]
+// sepMode  0: the three classic choices (10/50, IEL-based, random) with rankSep >= largest extent;
+//          1: arbitrary dyadic values incl. nodeSep = 0, rankSep = 0 and rankSep below the node extents
+//             (overlap between ranks is then expected - known finding C14-tree-rank-distance - and the
+//             driver only checks the exact tie there)
+// All sizes and separations are dyadic with few bits, so every double operation of symmetricLayout is
+// exact and the model (Rat) must reproduce every coordinate exactly.
+static double dy(double v, double grid) { return std::floor(v * grid) / grid; }
+
+static void runLayout(vh::Rng &r, const std::vector<int> &parent, int dirIdx, int sizeMode, int sepMode = 0, int convexNum = 3) {
     static const CardinalDir dirs[4] = {CardinalDir::NORTH, CardinalDir::EAST, CardinalDir::SOUTH, CardinalDir::WEST};
     int n = (int) parent.size();
     Graph_SP G = std::make_shared<Graph>();
     std::vector<Node_SP> ns;
     double maxDim = 0;
     for (int i = 0; i < n; ++i) {
-        double w = uniform ? 30 : 10 + 2 * r.range(0, 15), h = uniform ? 30 : 10 + 2 * r.range(0, 15);
+        double w, h;
+        switch (sizeMode) {
+        case 0: w = h = 30; break;
+        case 1: w = 10 + 2 * r.range(0, 15); h = 10 + 2 * r.range(0, 15); break;
+        case 2: { double a = 2 * r.range(1, 8), b = 2 * r.range(10, 100); if (r.coin()) std::swap(a, b);
+                  if (r.coin(1, 4)) b = a; w = a; h = b; break; }
+        default: w = r.range(1, 200) / 4.0; h = r.range(1, 200) / 4.0; break;
+        }
         maxDim = std::max(maxDim, std::max(w, h));
         Node_SP u = Node::allocate(w, h);
         G->addNode(u);
@@ -391,15 +482,30 @@ static void runLayout(vh::Rng &r, const std::vector<int> &parent, int dirIdx, bo
     printf("\n");
     for (int i = 1; i < n; ++i) { G->addEdge(ns[parent[i]], ns[i]); printf("e %u %u\n", ns[parent[i]]->id(), ns[i]->id()); }
     printf("root %u\n", ns[0]->id());
-    // documented precondition: rankSep (distance between rank centre lines) >= largest node extent
+    for (auto &u : ns) {
+        dimensions dm = u->getDimensions();
+        printf("sz %u %s %s\n", u->id(), vh::hx(dm.first).c_str(), vh::hx(dm.second).c_str());
+        printf("kids %u", u->id());
+        for (Node_SP c : u->getChildren()) printf(" %u", c->id());
+        printf("\n");
+    }
     double nodeSep, rankSep;
-    int pk = (int) r.range(0, 2);
-    if (pk == 0) { nodeSep = 10; rankSep = 50; }
-    else if (pk == 1) { double iel = G->getIEL(); nodeSep = iel / 4; rankSep = std::max(iel, maxDim); }
-    else { nodeSep = (double) r.range(1, 40) / 2.0; rankSep = maxDim + (double) r.range(0, 120) / 2.0; }
-    bool convex = r.coin(3, 4);
+    if (sepMode == 0) {
+        // documented precondition: rankSep (distance between rank centre lines) >= largest node extent
+        int pk = (int) r.range(0, 2);
+        if (pk == 0) { nodeSep = 10; rankSep = 50; }
+        else if (pk == 1) { double iel = G->getIEL(); nodeSep = dy(iel / 4, 8); rankSep = std::max(dy(iel, 8), maxDim); }
+        else { nodeSep = (double) r.range(1, 40) / 2.0; rankSep = maxDim + (double) r.range(0, 120) / 2.0; }
+    } else {
+        int pk = (int) r.range(0, 3);
+        nodeSep = pk == 0 ? 0 : (double) r.range(0, 160) / 8.0;
+        int qk = (int) r.range(0, 3);
+        rankSep = qk == 0 ? 0 : qk == 1 ? (double) r.range(0, 8 * (long) maxDim) / 8.0 : maxDim + (double) r.range(0, 240) / 4.0;
+    }
+    bool convex = r.coin(convexNum, 4);
     CardinalDir d = dirs[dirIdx & 3];
     printf("layout 0 %s %s %s %d\n", dirName(d), vh::hx(nodeSep).c_str(), vh::hx(rankSep).c_str(), (int) convex);
+    printf("exact 1\n");
     fflush(stdout);
     Tree tree(G, ns[0]);
     printf("tsize %zu\n", tree.size());
@@ -409,6 +515,13 @@ static void runLayout(vh::Rng &r, const std::vector<int> &parent, int dirIdx, bo
         printf("box 0 %u %s %s %s %s\n", p.first, vh::hx(bb.x).c_str(), vh::hx(bb.X).c_str(),
                vh::hx(bb.y).c_str(), vh::hx(bb.Y).c_str());
     }
+    for (auto p : G->getNodeLookup()) {
+        Avoid::Point c = p.second->getCentre();
+        printf("ctr %u %s %s\n", p.first, vh::hx(c.x).c_str(), vh::hx(c.y).c_str());
+    }
+    for (size_t rk = 0; rk < tree.m_boundsByRank.size(); ++rk)
+        printf("rb %zu %s %s\n", rk, vh::hx(tree.m_boundsByRank[rk][0]).c_str(), vh::hx(tree.m_boundsByRank[rk][1]).c_str());
+    printf("lbub %s %s\n", vh::hx(tree.m_lb).c_str(), vh::hx(tree.m_ub).c_str());
     printf("laid 0 %d\n", (int) tree.isSymmetrical());
 }
 
@@ -575,7 +688,7 @@ int main(int argc, char **argv) {
             std::vector<int> parent(witness, witness + 14);
             vh::beginCase(k, "layout-witness14");
             printf("kind layout\n");
-            runLayout(r, parent, d, true);
+            runLayout(r, parent, d, 0);
             vh::endCase();
         }
     }
@@ -592,7 +705,27 @@ int main(int argc, char **argv) {
         genLayoutTree(r, shape, n, parent);
         vh::beginCase(k, tags[shape]);
         printf("kind layout\n");
-        runLayout(r, parent, (int) r.range(0, 3), r.coin());
+        { int di = (int) r.range(0, 3); bool uni = r.coin(); runLayout(r, parent, di, uni ? 0 : 1); }
+        vh::endCase();
+    }
+    // exact-tie classes: every shape (plus deep paths, stars, nested lopsided, tiny), anisotropic and
+    // quarter-valued sizes, separations incl. 0 and rankSep below the node extents, both convexOrdering
+    // values equally likely, all four growth directions.
+    long nLayoutX = (thorough ? 3000 : 900) * a.scale;
+    if (a.n >= 0) nLayoutX = a.n / 2;
+    for (long c = 0; c < nLayoutX; ++c, ++k) {
+        if (!a.want(k)) continue;
+        vh::Rng r = vh::caseRng(a.seed, k);
+        static const char *tags[10] = {"layoutx-random", "layoutx-lopsided", "layoutx-caterpillar", "layoutx-family14",
+                                       "layoutx-spider", "layoutx-hubs", "layoutx-deeppath", "layoutx-star",
+                                       "layoutx-nested-lopsided", "layoutx-tiny"};
+        int shape = (int) (c % 10);
+        int n = shape == 9 ? (int) r.range(1, 4) : (int) r.range(5, thorough ? 90 : 40);
+        std::vector<int> parent;
+        genLayoutTree(r, shape == 5 ? 99 : shape, n, parent);
+        vh::beginCase(k, tags[shape]);
+        printf("kind layout\n");
+        { int di = (int) (c / 10 % 4); int sm = (int) r.range(1, 3); int pm = r.coin(2, 3) ? 1 : 0; runLayout(r, parent, di, sm, pm, 2); }
         vh::endCase();
     }
     return 0;
